@@ -55,6 +55,14 @@ var c20DrvScripts = []string{
 	`return (1;`,
 	``,
 	`return keys(Nested);`,
+	"return \"abc\n",
+	"x = /ab\n",
+	"return \"abc\\",
+	"// only a comment\n",
+	"return 1 +",
+	"return \"a\\\r",
+	"x = /(?i/;\n",
+	"\n\n\n",
 }
 
 var c20DrvLoops = []string{
